@@ -71,14 +71,21 @@ def setUtf8 (o : Nat) (us : List Nat) (m : Mode) : M Unit := do
   ctorUnits tmpA us
   withTemp tmpA (setBufMove o tmpA m)
 
-/-- `ST::string(const char *, size, validation)` -/
-def ctorText (o : Nat) (us : List Nat) (m : Mode) : M Unit := do
+/-- a constructor body running after the member `m_buffer` was default-constructed: a body that
+    throws leaves no object (the member is destroyed during unwinding) -/
+def ctorThen (o : Nat) (body : M Unit) : M Unit := do
   ctorDefault o
-  -- a constructor that throws leaves no object: the already constructed member is destroyed
-  fun p => match setUtf8 o us m p with
+  fun p => match body p with
     | .ok a p' => .ok a p'
     | .throw e p' => (match dtor o p' with | .ok _ p'' => .throw e p'' | .fault f p'' => .fault f p'' | .throw _ p'' => .throw e p'')
     | .fault f p' => .fault f p'
+
+/-- `ST::string(const char *, size, validation)` -/
+def ctorText (o : Nat) (us : List Nat) (m : Mode) : M Unit := ctorThen o (setUtf8 o us m)
+
+/-- `ST::string(char_buffer &&init, validation)` / `ST::string(const char_buffer &init, validation)` -/
+def ctorBufMove (o b : Nat) (m : Mode) : M Unit := ctorThen o (setBufMove o b m)
+def ctorBufCopy (o b : Nat) (m : Mode) : M Unit := ctorThen o (setBufCopy o b m)
 
 /-- `m_buffer = <conversion result>` where the conversion produced `val` in a temporary buffer
     (`set(const utf16_buffer&)`, `set(const wchar_t*)`, constructors from UTF-16/32 …); a
@@ -147,7 +154,8 @@ inductive SOp where
   | setConv (o : Nat) (conv : Outcome (List Nat))         -- T
   | assignConv (o : Nat) (conv : Outcome (List Nat))      -- E
   | bufCtor (us : List Nat)                               -- U8
-  | setBufMove (o : Nat) (m : Mode) | setBufCopy (o : Nat) (m : Mode)   -- b, B
+  | setBufMove (o : Nat) (m : Mode) | setBufCopy (o : Nat) (m : Mode)   -- b, B (and h, H: operator= with the default mode)
+  | ctorBufMove (o : Nat) (m : Mode) | ctorBufCopy (o : Nat) (m : Mode) -- G, g
   | derive (ds : List (Nat × List Nat))                   -- K, V: new objects holding computed values
   | deriveThrow (e : Exc)                                 -- K, V whose computation throws: nothing is created
   | query                                                 -- Q
@@ -173,6 +181,8 @@ def SOp.run : SOp → M Unit
   | .bufCtor us => Pool.ctorUnits bufSlot us
   | .setBufMove o m => StrPool.setBufMove o bufSlot m
   | .setBufCopy o m => StrPool.setBufCopy o bufSlot m
+  | .ctorBufMove o m => StrPool.ctorBufMove o bufSlot m
+  | .ctorBufCopy o m => StrPool.ctorBufCopy o bufSlot m
   | .derive ds => ds.forM fun (d, v) => StrPool.fresh d v
   | .deriveThrow e => throwE e
   | .query => pure ()
@@ -180,9 +190,9 @@ def SOp.run : SOp → M Unit
 /-- the objects an operation is allowed to change (everything else must be left bit-identical) -/
 def SOp.targets : SOp → List Nat
   | .ctorText o _ _ | .ctorDefault o | .dtor o | .clear o | .appendStr o _ | .appendText o _ _ | .appendChar o _
-  | .setText o _ _ | .setConv o _ | .assignConv o _ | .assignCopy o _ | .ctorCopy o _ | .setBufCopy o _ => [o]
+  | .setText o _ _ | .setConv o _ | .assignConv o _ | .assignCopy o _ | .ctorCopy o _ | .setBufCopy o _ | .ctorBufCopy o _ => [o]
   | .ctorMove o s | .assignMove o s => [o, s]
-  | .setBufMove o _ => [o, bufSlot]
+  | .setBufMove o _ | .ctorBufMove o _ => [o, bufSlot]
   | .bufCtor _ => [bufSlot]
   | .derive ds => ds.map (·.1)
   | .deriveThrow _ | .query => []
